@@ -1167,6 +1167,13 @@ class _State(object):
             if isinstance(a, A) or isinstance(b, A):
                 return symarr.elementwise(self._bin(NP_BINARY[f]), a, b)     # np.multiply is elementwise even for matrices
             return NotImplemented
+        if f == 'clip' and len(args) == 3 and not n.keywords:
+            # numpy.clip(x, lo, hi) = minimum(maximum(x, lo), hi)
+            x, lo, hi = [self.expr(a, env) for a in args]
+            if isinstance(lo, A) or isinstance(hi, A):
+                return NotImplemented
+            cl = lambda v: ('call', 'min', [('call', 'max', [v, lo]), hi])
+            return x.map(cl) if isinstance(x, A) else cl(x)
         if f in ('arctan2', 'mod') and len(args) == 2:
             a, b = self.expr(args[0], env), self.expr(args[1], env)
             if isinstance(a, A) or isinstance(b, A):
